@@ -392,6 +392,7 @@ type c37Trace struct {
 	failErr  string
 	secEnd   [4]int // offset after each completely parsed section
 	secDone  [4]bool
+	runaway  bool // more records than input bytes
 }
 
 func c37BuildTrace(msg []byte) *c37Trace {
@@ -416,6 +417,13 @@ func c37BuildTrace(msg []byte) *c37Trace {
 				return tr
 			}
 			tr.recs = append(tr.recs, c37Rec{sec, line, p.off})
+			if len(tr.recs) > len(msg) {
+				// Every record occupies at least 5 bytes of its own; a parser
+				// that yields more records than the input has bytes is reading
+				// the same bytes again and again.
+				tr.runaway = true
+				return tr
+			}
 		}
 	}
 	return tr
@@ -640,10 +648,16 @@ func c37Check(w *vx.W, x c37Case, interleaveCap int) {
 	}
 
 	// (2) Unpack against the record-by-record trace
-	var m Message
-	uerr := m.Unpack(msg)
 	tr := c37BuildTrace(msg)
+	var m Message
+	var uerr error
+	if !tr.runaway {
+		uerr = m.Unpack(msg)
+	}
 	switch {
+	case tr.runaway:
+		w.Failf("C37/parser/more-records-than-input-bytes", "parsing record by record yields more than %d records from a %d-byte input (the same bytes are parsed repeatedly); last: %s\ninput (%s): %x", len(tr.recs)-1, len(msg), tr.recs[len(tr.recs)-1].line, x.Origin, c36Short(msg))
+		return
 	case tr.startErr != "":
 		if uerr == nil || uerr.Error() != tr.startErr {
 			hard = append(hard, c37Fail{"C37/unpack-vs-parser/header-error-differs", fmt.Sprintf("Parser.Start fails with %q, Unpack: %v", tr.startErr, uerr)})
